@@ -76,6 +76,10 @@ CHECKS = {
    "Non-interference by lock-step differential execution: breadth-first search to depth 6 (thorough 8), de-duplicated on the complete inventory, over the product alphabet of two users (list; per collection create/get/delete/insert/insert3/update/search/filter-search/delete-point) on one real node through the assembled HTTP handler chain, for 10 user-id pairs (prefixes, key-concatenation collisions, '.', '..', space, percent, backslash, non-ASCII, trailing space); each user's sub-history runs alone on its own node and every response (status + canonical body) of the shared run must equal the solitary one; the shard-file inventory of the shared node must equal the union of the solitary ones.",
    "whole requests are the unit of interleaving (node-database writes are serialised by bbolt); user ids without '/'",
    "explicit-state BFS over interleaved two-tenant histories of the real handlers with a differential (non-interference) oracle", "DESIGN.md §4 C16"),
+ "C17": (True, "seqx", "model_checking",
+   "Every request history up to depth 3 (thorough 4) over {insert 2, insert 3, update existing+unknown, delete existing+unknown, delete all} on real in-process clusters of 1-3 nodes talking RPC over loopback, MaxShardPointCount {1,2}, 3 (thorough 8) placement seeds, each request entering through the next live node in rotation, with all servers up and with each server stopped (connections dropped) from each step on (8.4k histories); after every request, through every live node: each id found exactly once iff stored, filter search over limit x offset x sort (<= limit, no duplicates, results are stored points, globally sorted, exact when the limit covers the matches), flat search globally ordered by hybrid score, update/delete failure lists and their message.",
+   "ids unique per collection; nothing claimed when the user's routing node is down; a search may fail as a whole when a shard server is down; offset heuristic not claimed exact",
+   "exhaustive enumeration of request histories x deployments x single-server faults on real nodes vs reference model", "DESIGN.md §4 C17"),
 }
 
 props = [json.loads(l) for l in open(os.path.join(HERE, "properties.jsonl"))]
